@@ -1,12 +1,87 @@
 import Driver.Util
-open Drv
+import Faithful.Lib.Bucketteer
+open Drv BK
 
 namespace DrvC05
+
+/-- the hash the real code uses: `bucketteer.Hash(sig) = xxhash.Sum64(sig[:])` -/
+def hR (s : Sig) : Nat := (H.xxhash64 s).toNat
+
+/-- bytewise `<` (Go string comparison), used only to canonicalise the v1 metadata map -/
+def ltBytes : Bytes → Bytes → Bool
+  | [], [] => false
+  | [], _ :: _ => true
+  | _ :: _, [] => false
+  | a :: r, b :: q => if a < b then true else if b < a then false else ltBytes r q
+
+/-- v1 metadata is a Go map: assignment replaces; the harness re-orders the entries of the real file by key -/
+def mapInsert (k v : Bytes) : List (Bytes × Bytes) → List (Bytes × Bytes)
+  | [] => [(k, v)]
+  | e :: r => if e.1 = k then (k, v) :: r else if ltBytes k e.1 then (k, v) :: e :: r else e :: mapInsert k v r
+
+structure St where
+  fmt : Fmt := .v2
+  live : Bool := false
+  mta : List (Bytes × Bytes) := []
+  w : Buckets := #[]
+  sd : Option Sealed := none
+  file : File := #[]
+  rdr : Option Rdr := none
+
+def showRes : Res → String
+  | .yes => "true"
+  | .no => "false"
+  | .err => "err"
+
+def step (st : St) (l : String) : St × String :=
+  match words l with
+  | "case" :: _ => (st, "ok")
+  | ["new", v] =>
+    if v = "v2" then ({ fmt := .v2, live := true, w := emptyW }, "ok")
+    else if v = "v1" then ({ fmt := .v1, live := true, w := emptyW }, "ok")
+    else (st, "bad-op")
+  | ["meta", k, v] =>
+    if !st.live then (st, "nowriter") else
+    let kb := unhex k; let vb := unhex v
+    match st.fmt with
+    | .v2 =>
+      -- indexmeta.Meta.Add
+      if st.mta.length ≥ Generated.metaMaxNumKVs ∨ kb.length > Generated.metaMaxKeySize ∨ vb.length > Generated.metaMaxValueSize
+      then (st, "err") else ({ st with mta := st.mta ++ [(kb, vb)] }, "ok")
+    | .v1 => ({ st with mta := mapInsert kb vb st.mta }, "ok")
+  | ["put", s] =>
+    if !st.live then (st, "nowriter") else
+    let w := st.w
+    let st := { st with w := #[] }
+    ({ st with w := put hR w (unhex s) }, "ok")
+  | ["whas", s] =>
+    if !st.live then (st, "nowriter") else
+    (st, toString (writerHas hR st.w (unhex s)))
+  | ["seal"] =>
+    if !st.live then (st, "nowriter") else
+    let sd := sealA st.fmt st.w
+    let f := (encode st.fmt st.mta sd).toArray
+    let r := openB st.fmt f
+    ({ st with sd := some sd, file := f, rdr := r },
+      s!"file {f.size} {hexNat (H.xxhash64 f.toList).toNat 16} size={f.size} open={r.isSome}")
+  | ["has", s] =>
+    match st.sd, st.rdr with
+    | some sd, some r =>
+      let sig := unhex s
+      let b := hasB st.file r (prefixOf sig) (hR sig)
+      let a := hasA sd (prefixOf sig) (hR sig)
+      (st, showRes b ++ (if b = (if a then Res.yes else Res.no) then "" else " MODEL-LAYERS-DISAGREE"))
+    | _, _ => (st, "nofile")
+  | ["dump"] => (st, hex st.file.toList)
+  | _ => (st, "bad-op")
 
 /-- model side of the C05 line protocol: one answer line per op line -/
 def run (lines : Array String) : IO Unit := do
   let out ← IO.getStdout
-  for _ in lines do
-    out.putStrLn "unimplemented"
+  let mut st : St := {}
+  for l in lines do
+    let (st', o) := step st l
+    st := st'
+    out.putStrLn o
 
 end DrvC05
